@@ -144,10 +144,11 @@ for l in open('/verif/properties.jsonl'):
     p = json.loads(l); TITLES[p['id']] = p['title']
 
 BASIC_SRC = 'THE MODEL OF THE THREE BASIC CLASSES IS THE SOURCE: GenBasic.prog_of c is the program (deep-embedded generator language GenLang) that harness/translate.py produces from the _iterator method of NoneCheckpointSchedule / SingleMemoryStorageSchedule / SingleDiskStorageSchedule; Gen/BasicGen.v re-translates the current source on every run and proves it equal to that term by conversion.  Resuming that program request by request (GenLang.run = next() on the suspended generator; finalize = the base-class method on the attributes) from the freshly constructed object gives, under EVERY history of next() and finalize(k) calls, exactly the observations (outcome, n, r, max_n, is_exhausted) of the hand-written model Online.run_ops -- so the theorems of this file about these three classes, stated on the extracted model, are theorems about the translated source'
+TWO_SRC = 'THE MODEL OF TwoLevelCheckpointSchedule IS THE SOURCE: GenTwo.two_prog_model is the program (generator language GenLang2: named locals, the snapshots stack, //, *, min, n_advance, assert, del) that harness/translate.py produces from TwoLevelCheckpointSchedule._iterator; Gen/TwoLevelGen.v re-translates the current source on every run and proves it equal to that term by conversion.  Resuming that program request by request from the freshly constructed object gives, for every period, unit count, storage and trajectory the constructor accepts and under EVERY history of next() and finalize(k) calls, exactly the observations (outcome, n, r, max_n, is_exhausted) of the hand-written machine Online.run_ops (class KTwo) -- so the TwoLevel theorems of this file, stated on the extracted model, are theorems about the translated source (n_advance itself is tied by Gen/NAdvanceGen.v)'
 files = {}
 for pid, cls in [('C01','C01'),('C02','C02'),('C03','C03'),('C04','C04'),('C08','C08'),('C12','C12')]:
     body = HEAD % (pid, TITLES[pid]) + safety(pid, cls, '')
-    body = body.replace("From CS Require Import Actions", "From CS Require Ops RevConv RevBridge4 RevolveRun Refuted DiskRun DiskBridge3 HRevRun HRevTop GenLang GenBasic.\nFrom CS Require Import Actions")
+    body = body.replace("From CS Require Import Actions", "From CS Require Ops RevConv RevBridge4 RevolveRun Refuted DiskRun DiskBridge3 HRevRun HRevTop GenLang GenBasic GenLang2 GenTwo.\nFrom CS Require Import Actions")
     if pid != 'C04':
         body += disk_safety(pid, cls)
         body += hrev_safety(pid, cls)
@@ -181,6 +182,7 @@ Print Assumptions C04_hrevolve_only_leftover_partial.
     for new, mod, name, cm in PARTIAL_SAFETY:
         body += lifted(new % pid, mod, name, cm)
     body += lifted('%s_basic_source_is_model' % pid, 'GenBasic', 'basic_from_start', BASIC_SRC)
+    body += lifted('%s_twolevel_source_is_model' % pid, 'GenTwo', 'two_from_start', TWO_SRC)
     files[pid] = body
 
 
@@ -271,8 +273,9 @@ Proof. exact twolevel_run. Qed.
 Print Assumptions C09_twolevel_passes.
 
 """
-mk('C09', ['MSTerm','OnlineFlags','Flags','RevConv','RevBridge4','RevolveRun','PassRepeat','Online','DiskRun','DiskBridge3','HRevRun','HRevTop','GenLang','GenBasic'], [
+mk('C09', ['MSTerm','OnlineFlags','Flags','RevConv','RevBridge4','RevolveRun','PassRepeat','Online','DiskRun','DiskBridge3','HRevRun','HRevTop','GenLang','GenBasic','GenLang2','GenTwo'], [
    lifted('C09_basic_source_is_model','GenBasic','basic_from_start',BASIC_SRC),
+   lifted('C09_twolevel_source_is_model','GenTwo','two_from_start',TWO_SRC),
    lifted('C09_flags','Flags','C09_flags','FLAGS, all thirteen classes, every parameter tuple the constructor accepts, every history of next() / finalize(k) requests (ops), any executor parameters: before the first request is_exhausted = is_running = False; after every next() is_running = True; is_exhausted after a request = (the final action of the class has been yielded so far) -- final_action: EndForward for None, EndReverse for the offline classes and SingleDisk(move), none for SingleMemory, SingleDisk(copy), TwoLevel; no action is yielded once the final action has been seen (only StopIteration / an exception), and finalize never changes the flag. flags_hist is the trace rule, defined in Proofs/OnlineFlags.v'),
    C09_runs,
    lifted('C09_multistage_flags_on_runs','MultistageRun','multistage_flags','the same rule read on the raise-free Multistage runs of the run theorem (every line: is_running, and is_exhausted = (the action is EndReverse), StopIteration only with is_exhausted)'),
@@ -297,7 +300,8 @@ mk('C11', ['SchedProofs','UsesProofs','ExecBudget','RevConv','RevBridge4','DiskU
    lifted('C11_hrev_touch_uses','HRevUses','hrev_touch_uses','HRevolve, snapshots_in_ram >= 1 and snapshots_on_disk >= 0, every history: a touched storage is reported as used -- with a disk slot RAM and DISK are both reported; without one the op list is a memory-only block (the infinite column of optp[1]) and the converter never names DISK'),
    lifted('C11_revfam_no_ram_touch_uses','RevUses0','revfam_no_ram_touch_uses','the remaining corner of the Revolve family -- DiskRevolve, PeriodicDiskRevolve, HRevolve with snapshots_in_ram = 0, which the constructor accepts for max_n = 1 only: the op list is a single adjoint step and no yielded action touches RAM or DISK, under every history'),
    lifted('C11_touch_needs_budget','ExecBudget','run_touch','(auxiliary, class-independent) on any error-free monitored run the store sizes stay within the declared budgets and an action touching RAM / DISK is accepted only if that budget is positive')])
-mk('C13', ['TLInv','TLSweep','Online','TLStorage','HRevUses'], [
+mk('C13', ['TLInv','TLSweep','Online','TLStorage','HRevUses','GenLang2','GenTwo'], [
+   lifted('C13_twolevel_source_is_model','GenTwo','two_from_start',TWO_SRC),
    lifted('C13_sweep_pattern','TLSweep','twolevel_sweep','FIRST CLAUSE, extracted model, every period >= 1, every binomial_snapshots, both storages, both trajectories, every number j of requests before finalisation: the observations are exactly Forward(i P, (i+1) P, write_ics, DISK) with n = (i+1) P, r = 0, max_n unknown, not exhausted, for i = 0 .. j-1'),
    """(* the whole TwoLevel run on the extracted model *)
 Theorem C13_twolevel_run : forall (N P bs : Z) (bst : storage) (tj : traj), 1 <= N -> 1 <= P -> 0 <= bs -> bst = RAM \\/ bst = DISK -> forall k : nat,
